@@ -205,13 +205,15 @@ package core
 // MigratePod: the source is settled while the pod is still in (and, if so, assigned in) the source's cache;
 // the target is charged after the pod entered its cache with the same assigned flag.
 //@ spec func quotasDistinct(gqm *GroupQuotaManager) bool = forall k1 string, k2 string :: {has(gqm.quotaInfoMap, k1), has(gqm.quotaInfoMap, k2)} has(gqm.quotaInfoMap, k1) && has(gqm.quotaInfoMap, k2) && k1 != k2 ==> gqm.quotaInfoMap[k1] != gqm.quotaInfoMap[k2] && gqm.quotaInfoMap[k1].PodCache != gqm.quotaInfoMap[k2].PodCache
-//@ func (*GroupQuotaManager).MigratePod [C01]
+//@ func (*GroupQuotaManager).MigratePod [C01,C03]
 //@   requires quotasOK(gqm) && quotasDistinct(gqm) && pod != nil
 //@   requires has(gqm.quotaInfoMap, in)
 //@   assert before call updatePodRequestNoLock#1: #release-request: $arg0 == out && $arg1 == pod && $arg2 == nil && (has(gqm.quotaInfoMap, out) ==> isCached(gqm, out, pod) == old(isCached(gqm, out, pod)))
 //@   assert before call updatePodUsedNoLock#1: #release-used: $arg0 == out && $arg1 == pod && $arg2 == nil && isAssignedIn(gqm, out, pod)
 //@   assert before call updatePodRequestNoLock#2: #charge-request: $arg0 == in && $arg1 == nil && $arg2 == pod && (has(gqm.quotaInfoMap, in) ==> isCached(gqm, in, pod)) && (in != out ==> !isCached(gqm, out, pod))
 //@   assert before call updatePodUsedNoLock#2: #charge-used: $arg0 == in && $arg1 == nil && $arg2 == pod && old(isAssignedIn(gqm, out, pod))
+// updatePodUsedNoLock silently ignores a pod that is not flagged assigned: the flag must be set in the target before its used is charged
+//@   assert before call updatePodUsedNoLock#2: #charge-counts: isAssignedIn(gqm, in, pod)
 //@   ensures #released: old(isAssignedIn(gqm, out, pod)) ==> calls("updatePodUsedNoLock") == 2
 //@   ensures #unassigned: !old(isAssignedIn(gqm, out, pod)) ==> calls("updatePodUsedNoLock") == 0
 //@   ensures #requests: calls("updatePodRequestNoLock") == 2
